@@ -163,10 +163,16 @@ def stages(tier, seed, witness_search=False):
     procs = 30 if tier == "quick" else 400
     if witness_search:
         procs *= 3
-    return [ThreadStage("rs-threads", "rs", procs, seed), ThreadStage("c-threads", "c", procs, seed + 1), GlobalsStage()]
+    # hashers on mapped files driven from the workers of one rayon pool (the file stage's pool-workers script: every hasher
+    # must finish, with the digest it yields alone)
+    from . import c11
+    return [ThreadStage("rs-threads", "rs", procs, seed), ThreadStage("c-threads", "c", procs, seed + 1), GlobalsStage(),
+            c11.FileStage(seed + 17, fifo=False)]
 
 
 def replay(d, lean_exe):
     from ..stage import replay_line
+    if d.get("stage") == "files":
+        return dict(still_fails=False, note="file scripts use scratch paths; re-run the check with the same VERIF_SEED")
     impl = "c" if d.get("impl_name", "").startswith("c") else "rs"
     return replay_line(d, lean_exe, impl=impl, normalize=norm_all)
